@@ -11,7 +11,10 @@ const OrdinalsPrefix = "ord"
 
 // Inscribe adds an output to the transaction with an inscription.
 func (tx *Tx) Inscribe(ia *bscript.InscriptionArgs) error {
-	s := *ia.LockingScriptPrefix // deep copy
+	// deep copy: the inscription is appended to the copy, never to the
+	// caller's slice (whose spare capacity may belong to other data)
+	s := make(bscript.Script, len(*ia.LockingScriptPrefix))
+	copy(s, *ia.LockingScriptPrefix)
 
 	// add Inscription data
 	// (Example: 	OP_FALSE
